@@ -19,7 +19,8 @@ fn main() {
     let a: Vec<String> = std::env::args().collect();
     let dir = std::path::PathBuf::from(&a[1]);
     let seed: u64 = a[2].parse().unwrap();
-    let w = wl::gen(seed);
+    let rotations = a.get(3).map(|x| x == "rot").unwrap_or(false);
+    let w = wl::gen_with(seed, rotations);
     let db = Database::builder(&dir)
         .worker_threads_unchecked(0)
         .manual_journal_persist(w.manual)
@@ -44,6 +45,7 @@ fn main() {
                 cls(b.commit())
             }
             WOp::Persist(m) => cls(db.persist(pm(m))),
+            WOp::RotateJournal => cls(fjall::verif::verif_rotate_journal(&db)),
         };
         println!("R {i} {r} {seq}");
     }
